@@ -279,6 +279,22 @@ class Prog:
             except RuntimeError:
                 w.log('commit-vetoed', self.tid, old)
                 self.tm.abort()
+        elif k == 'hist':
+            # the revision list of one object, as an administrator's tool
+            # asks for it (any thread may, at any time)
+            try:
+                o = self.obj(st[1])
+                h = w.db.history(o._p_oid, 10)
+                w.log('history', self.tid, self.txn, st[1],
+                      tuple((d['tid'], d['user_name'], d['description'])
+                            for d in h))
+            except Exception as e:      # noqa: B902
+                w.log('read-error', self.tid, self.txn, st[1],
+                      'history:' + type(e).__name__, False)
+        elif k == 'reset':
+            # ZODB.Connection.resetCaches(): every connection drops its
+            # object cache when it is opened next
+            env.mod('ZODB.Connection').resetCaches()
         elif k == 'sp':
             self.tm.savepoint()
         elif k == 'spk':
